@@ -620,6 +620,17 @@ func (w *lw) step(op h.Op) {
 	for _, pn := range op.L {
 		w.eng.Loc(pn)
 	}
+	if op.K == "addfact" {
+		// a parent list written as the property fact it is names locations too
+		if ps, ok := op.Map()["!parents"].([]interface{}); ok {
+			for _, x := range ps {
+				if pn, ok := x.(string); ok {
+					w.eng.Loc(pn)
+					m.Loc(pn)
+				}
+			}
+		}
+	}
 	w.f0 = w.eng.Store.ErrorsFired()
 	switch op.K {
 	case "sleep":
@@ -1176,6 +1187,14 @@ func (w *lw) checkGet(locName, id string, p h.Prot, op h.Op) {
 		g := h.Canon(sortSets(stripId(got)))
 		if g != h.Canon(sortSets(it.Body)) {
 			w.fail("get-content", "get:"+w.itemKind(it), "GetFact(%s/%s) = %s, model has %s", locName, id, g, h.Canon(it.Body))
+		}
+		// a plain fact comes back as written, the order of its arrays included
+		// (a rule's `when` may come back with its arrays sorted: the pattern
+		// index sorts them in place, and in a pattern an array is a set)
+		if h.RuleOf(it) == nil && it.Expires == 0 {
+			if g, want := h.Canon(stripId(got)), h.Canon(it.Body); g != want {
+				w.fail("get-content", "get:"+w.itemKind(it)+":order", "GetFact(%s/%s) = %s, last written %s", locName, id, g, want)
+			}
 		}
 	}
 }
